@@ -75,7 +75,7 @@ def mutate(ctx, prot, unprot, rhdr, positions, names):
                 d.pop(name, None)
         return f"{name} deleted"
     pos = ctx.choose("position", positions)
-    v = ctx.choose("crit", [[], ["alg"], ["nope"], ["b64"], ["alg", "nope"], "alg", 1, None, [1], ["exp"], ["typ"]])
+    v = ctx.choose("crit", [[], ["alg"], ["nope"], ["b64"], ["alg", "nope"], "alg", 1, None, [1], ["exp"], ["typ"], [""], ["", "alg"], ["alg", ""], ["0"], [" "]])
     for d in (prot, unprot, rhdr):
         if d is not None:
             d.pop("crit", None)
